@@ -12,18 +12,21 @@ TheMod == Modules[ModIdx]
 
 TypeNames == {TheMod.defs[i].n : i \in DOMAIN TheMod.defs}
 
-PlansEnc == {<<OpBuild(1), OpEncode(1, "DER")>>}
-PlansRT == {<<OpBuild(1), OpEncode(1, s), OpDecode(2, s), OpCompare(1, 2), OpEncode(2, "DER")>> : s \in Syntaxes}
-Plans == CASE PlanSet = "enc" -> PlansEnc [] PlanSet = "rt" -> PlansRT
+PlansEnc == {<<OpBuild(1), OpEncode(1, "DER"), OpEncode(1, "UPER"), OpEncode(1, "OER"), OpEncode(1, "CXER"), OpEncode(1, "BXER")>>}
+PlansRT == {<<OpBuild(1), OpEncode(1, "DER"), OpEncode(1, s), OpDecode(2, s), OpCompare(1, 2), OpEncode(2, "DER")>> : s \in Syntaxes}
+\* transcoding chains: every ordered pair of syntaxes
+PlansChain == {<<OpBuild(1), OpEncode(1, "DER"), OpEncode(1, s1), OpDecode(2, s1), OpEncode(2, s2), OpDecode(3, s2),
+                 OpCompare(1, 3), OpEncode(3, "DER")>> : s1 \in Syntaxes, s2 \in Syntaxes}
+Plans == CASE PlanSet = "enc" -> PlansEnc [] PlanSet = "rt" -> PlansRT [] PlanSet = "chain" -> PlansChain
 
 Init == \E n \in TypeNames : \E v \in Values(RawEnv, TRef(n), Depth) : \E p \in Plans :
           InitSession([ty |-> n, val |-> v, plan |-> p])
-Next == Step
+Next == Step(OpaqueWire)
 Spec == Init /\ [][Next]_vars
 
 Done == pc = Len(sc.plan) + 1
 Export == Done => PrintT(<<"SCN", ToJson([ty |-> sc.ty, val |-> sc.val, plan |-> sc.plan,
-                                          exp |-> [s \in Syntaxes |-> Enc(s, TypeOf(sc), sc.val)]])>>)
+                                          exp |-> [s \in {"DER", "UPER", "OER"} |-> IF wire[s] # NoWire THEN Enc(s, TypeOf(sc), sc.val) ELSE <<>>]])>>)
 ExportModule == PrintT(<<"MOD", ToJson(TheMod)>>)
 ASSUME ExportModule
 =============================================================================
